@@ -72,3 +72,17 @@ check('C06', 'E1+E2+E3', 'model_checking',
       'thread schedules at event-operation granularity; an ACK racing the '
       'timeout expiry may land either way.',
       'DESIGN.md 6/C06')
+
+check('C13', 'E4', 'exploration',
+      'bounded-exhaustive enumeration of handler registries against the '
+      'documented precedence table',
+      'All 2^6 presence/absence combinations of the six target kinds x '
+      '{namespace has an unrelated handler} x {Server, AsyncServer, Client, '
+      'AsyncClient} x {sync, coroutine handlers} x 2 namespace names are '
+      'built on real objects and driven, through real packets, with the '
+      'reserved events and ordinary events of 0-2 arguments; which callable '
+      'ran and with which arguments is compared with the six-step order. '
+      'The space is finite and enumerated completely.',
+      'event/namespace names beyond the two used and argument lists longer '
+      'than 2 are covered by uniformity of the code, not by the check.',
+      'DESIGN.md 6/C13')
